@@ -25,8 +25,16 @@ impl<const BITS: usize, const LIMBS: usize> Uint<BITS, LIMBS> {
 //@ import core ZERO
 }
 
+//@ extract src/algorithms/gcd/matrix.rs struct Matrix
+pub struct Matrix(pub u64, pub u64, pub u64, pub u64, pub bool);
+//@ end
+pub type LehmerMatrix = Matrix;
 //@ include lib/lehmer_spec.rs
 //@ include lib/lehmer.rs
+impl Matrix {
+//@ import lehmer IDENTITY
+//@ import lehmer apply
+}
 
 //@ extract src/algorithms/gcd/mod.rs fn gcd consts=IDENTITY cprefix=LehmerMatrix
 pub fn gcd<const BITS: usize, const LIMBS: usize>(
